@@ -47,24 +47,9 @@ def keyword_flag_default_shadows_call_dialect(v):
 
 
 @predicate
-def format_method_mutual_recursion(v):
-    """F07: two classes on a non-dict format mixin that reference each other, one of them also referencing itself:
-    the secondary `to_dict_<format>` / `from_dict_<format>` method of a class is rebuilt while it is already being
-    built when reached again through the other class -> RecursionError (at class creation or on the first call)."""
+def codec_union_runs_member_hooks_speculatively(v):
+    """F08: a codec (not a mixin) for a shape containing a union of dataclasses tries an earlier member's packer on
+    an instance of a later member; __pre_serialize__ is dispatched on the instance, so it runs once more per failed
+    attempt (never fewer times)."""
     f = v.get("facts", {})
-    ft = f.get("features") or {}
-    return (f.get("kind") == "RecursionError" and bool(ft.get("cycle")) and bool(ft.get("self_ref"))
-            and ft.get("mixin") in ("orjson", "msgpack", "orjson+msgpack"))
-
-
-HOMONYM_KINDS = ("local_dc", "local_enum", "functional_nt", "functional_td", "make_dataclass", "rebound")
-
-
-@predicate
-def class_referenced_by_qualified_name_not_identity(v):
-    """F13: generated code refers to a schema class by its rendered name (`module.qualname`, or the sanitised
-    local name registered with setdefault) instead of the class object: distinct classes with the same rendered
-    name (two locals of one factory, functional NamedTuple/TypedDict/make_dataclass homonyms, a re-bound module
-    attribute) or classes whose name is not bound in their module resolve to the wrong class or to nothing."""
-    f = v.get("facts", {})
-    return f.get("monitor") in ("identity", "closure") and f.get("kind") in HOMONYM_KINDS
+    return bool(f.get("codec")) and bool(f.get("union_member_speculation")) and f.get("kind") == "count" and "serialize-trace" in v.get("sig", "")
